@@ -24,7 +24,7 @@ RealHi == MaxDn
 VARIABLES reg, l, bad
 vars == <<reg, l, bad>>
 
-RegNames == {"A", "B", "C", "D", "E", "T", "U"}
+RegNames == {"A", "B", "C", "D", "E", "T", "U", "P", "Q"}
 NoValue == [ty |-> "none"]
 
 ProjOf(val) == CASE val.ty = "date" -> OkDate(val.dn)
